@@ -1,7 +1,7 @@
 SPECIFICATION Spec
 CONSTANTS
   Mode = "c24"
-  Tier = "quick"
+  Tier = "small"
   RefN = 40
 INVARIANTS RefLawsHold NeverRejects FinalTable Emit
 CHECK_DEADLOCK FALSE
